@@ -187,6 +187,29 @@ class C09(F.PropCheck):
                 if cfg[0] == 0: cfg[0] = 1
                 tags = [t for t in tags if t != 'boot-near-wrap'] + ['wrap-in-late-callback']
             cases.append(F.Case('%s%d' % (tier[0], i), evs, tags))
+        # boundary of the case split `remaining time <= accumulated time` (and `time_delta > *time`) of move_position: one callback whose
+        # interval equals the remaining time of the run exactly, one microsecond less, one more; half of them on (distance, travel time)
+        # pairs for which the two-rounding product falls below the exact floor (then time_delta exceeds the accumulated time by one)
+        for i in range(max(6, n // 12)):
+            F_ms = rng.choice([500, 1000, 2000, 17300, 60000, 600000, rng.randrange(500, 600001)])
+            T = F_ms * 1000
+            rmax = max(1, min(10000, 250000 * 10000 // T))
+            want_below = rng.random() < 0.5
+            r = None
+            for _ in range(400):
+                cand = rng.randrange(1, rmax + 1)
+                a_ = int((1.0 * cand / 10000.0) * T); b_ = cand * T // 10000
+                if a_ >= 1000 and ((a_ - b_ == -1) == want_below): r = cand; rpt = a_; break
+            if r is None: continue
+            ttype = rng.choice([0, 0, 0, 2])
+            tilt_ms = 0 if ttype == 0 else rng.choice([500, 2000])
+            d = rng.choice([1, 2])
+            pos0 = 100 + r if d == 2 else 10100 - r
+            tilt0 = 100 if d == 2 else 10100       # tilt already at its end stop: only the position block runs
+            cfg = [rng.choice([1, rng.randrange(1, 2**32)]), F_ms, F_ms, tilt_ms, ttype, rng.choice([-1, 5, 100]), pos0, tilt0, 250000]
+            evs = [('CFG', cfg, b''), ('CB', [10000], b''), ('SET', [d], b''), ('CB', [rpt + rng.choice([-1, 0, 0, 1])], b'')]
+            evs += [('CB', [rng.choice([1000, 10000, 30000])], b'') for _ in range(rng.randrange(2, 12))]
+            cases.append(F.Case('%sB%d' % (tier[0], i), evs, ['clamp-boundary', 'float-below-floor' if want_below else 'float-exact', 'type%d' % ttype]))
         # the 10-minute rule across the counter wrap: motor energised for more than 600 s, coarse callbacks
         for i in range(max(2, n // 60)):
             fo = rng.choice([0, 0, 600000, 400000])
